@@ -69,11 +69,11 @@ def check_C12(tier, seed):
     ctx.notes["pest_witness_agree"] = len(recs)
     # direction (B): long random texts recorded from the real code, validated by TLC against the spec
     rnd = random.Random(seed)
-    n = 150 if tier == "quick" else 1500
+    n = 150 if tier == "quick" else 400
     alpha = [10, 13, 97, 233, 20013, 128512, 32, 10, 13]
     texts = []
     for k in range(n):
-        ln = rnd.choice([20, 40, 80, 160]) if tier == "quick" else rnd.choice([40, 80, 160, 400])
+        ln = rnd.choice([20, 40, 80, 160]) if tier == "quick" else rnd.choice([40, 80, 160, 240])
         texts.append([rnd.choice(alpha) for _ in range(ln)])
     obs2 = run_text(binp, [{"idx": i, "s": t, "mode": "pos"} for i, t in enumerate(texts)])
     d = peg.tmpdir("c12")
